@@ -82,8 +82,10 @@ def run(ch, build):
         a, i, c = rng.randrange(64), rng.randrange(64), rng.randrange(64)
         lines.append("seropen %d %d %d %d %d %d" % (tag, priv, sid, a, i, c)); kinds.append("specopen")
         wants.append("ok %d %d %d %d %d %d" % (tag, priv, sid, a, i, c))
-    for ulen in range(0, 21):
-        for _ in range(6 if ch.quick() else 60):
+    # every length up to 40, and the lengths at which a narrower integer type would wrap (2^8, 2^16 and neighbours)
+    wraps = [l for c in (255, 256, 512, 768, 1024, 65535, 65536) for l in range(c - 1, c + 18)]
+    for ulen in list(range(0, 41)) + (wraps if not ch.quick() else rng.sample(wraps, 25) + [256, 257, 272, 273, 65536, 65552]):
+        for _ in range((6 if ch.quick() else 60) if ulen <= 40 else 1):
             user = bytes(rng.randrange(256) for _ in range(ulen))
             tag, bid, rnd = rng.randrange(256), rng.randrange(1 << 32), bytes(rng.randrange(256) for _ in range(16))
             lk, pr = rng.randrange(2), rng.randrange(16)
